@@ -175,3 +175,254 @@ theorem seq_eos_full {u : UTables} {a : Re} {s t : Str} (h : Lang u (.seq a .eos
     | eos he => subst he; exact ⟨rfl, ha⟩
 
 end Poor.Regex
+
+/-! ## completeness of the backtracking matcher -/
+namespace Poor.Regex
+open Poor
+
+/-- the residual `t` is among the results -/
+def Has (res : Res) (t : Str) : Prop := ∃ c', (t, c') ∈ res
+
+/-- order on repetition bounds: `none` is "no upper bound" -/
+def mxLe : Option Nat → Option Nat → Prop
+  | _, none => True
+  | none, some _ => False
+  | some a, some b => a ≤ b
+
+theorem mxLe_pred (a b : Option Nat) (h : mxLe a b) : mxLe (a.map (· - 1)) (b.map (· - 1)) := by
+  cases a <;> cases b <;> simp_all [mxLe] <;> omega
+
+theorem mxLe_pred_self (a : Option Nat) : mxLe (a.map (· - 1)) a := by
+  cases a <;> simp [mxLe]
+
+theorem mxLe_refl (a : Option Nat) : mxLe a a := by
+  cases a <;> simp [mxLe]
+
+theorem mxLe_ne_zero (a b : Option Nat) (h : mxLe a b) (ha : a ≠ some 0) : b ≠ some 0 := by
+  cases a <;> cases b <;> simp_all [mxLe] <;> omega
+
+theorem repIter_stop (f : Str → Caps → Res) (g : Bool) (fuel : Nat) (mx : Option Nat) (s : Str) (c : Caps) :
+    Has (repIter f g fuel 0 mx s c) s := by
+  cases fuel with
+  | zero => exact ⟨c, by simp [repIter]⟩
+  | succ fuel =>
+    simp only [repIter]
+    split
+    · exact ⟨c, by simp⟩
+    · simp only [show ¬ (0 > 0) by omega, if_false]
+      split
+      · exact ⟨c, by simp⟩
+      · exact ⟨c, by simp⟩
+
+/-- membership in the "one more optional iteration" part of `repIter` -/
+theorem more_has (f : Str → Caps → Res) (g : Bool) (fuel : Nat) (mx : Option Nat) (s : Str) (c : Caps) (v : Str) :
+    Has ((f s c).flatMap fun r =>
+        if r.1.length < s.length then repIter f g fuel 0 (mx.map (· - 1)) r.1 r.2 else [(r.1, r.2)]) v ↔
+      ∃ m ∈ f s c, (m.1.length < s.length ∧ Has (repIter f g fuel 0 (mx.map (· - 1)) m.1 m.2) v) ∨
+        (¬ m.1.length < s.length ∧ v = m.1) := by
+  constructor
+  · rintro ⟨c', h⟩
+    rw [List.mem_flatMap] at h
+    obtain ⟨m, hm, hx⟩ := h
+    refine ⟨m, hm, ?_⟩
+    split at hx
+    · rename_i hlt; exact Or.inl ⟨hlt, c', hx⟩
+    · rename_i hlt; simp at hx; exact Or.inr ⟨hlt, hx.1⟩
+  · rintro ⟨m, hm, h | h⟩
+    · obtain ⟨hlt, c', hc'⟩ := h
+      exact ⟨c', List.mem_flatMap.2 ⟨m, hm, by rw [if_pos hlt]; exact hc'⟩⟩
+    · obtain ⟨hlt, rfl⟩ := h
+      exact ⟨m.2, List.mem_flatMap.2 ⟨m, hm, by rw [if_neg hlt]; simp⟩⟩
+
+/-- the optional phase: what `repIter` returns for minimum 0 (and a bound that is not exhausted) -/
+theorem repIter_opt (f : Str → Caps → Res) (g : Bool) (fuel : Nat) (mx : Option Nat) (hm : mx ≠ some 0)
+    (s : Str) (c : Caps) (v : Str) :
+    Has (repIter f g (fuel + 1) 0 mx s c) v ↔
+      v = s ∨ ∃ m ∈ f s c, (m.1.length < s.length ∧ Has (repIter f g fuel 0 (mx.map (· - 1)) m.1 m.2) v) ∨
+        (¬ m.1.length < s.length ∧ v = m.1) := by
+  rw [← more_has]
+  simp only [repIter, if_neg hm, show ¬ (0 > 0) by omega, if_false]
+  constructor
+  · rintro ⟨c', h⟩
+    split at h
+    · rcases List.mem_append.1 h with h | h
+      · exact Or.inr ⟨c', h⟩
+      · simp at h; exact Or.inl h.1
+    · rcases List.mem_cons.1 h with h | h
+      · simp at h; exact Or.inl h.1
+      · exact Or.inr ⟨c', h⟩
+  · rintro (rfl | ⟨c', h⟩)
+    · split
+      · exact ⟨c, List.mem_append.2 (Or.inr (by simp))⟩
+      · exact ⟨c, by simp⟩
+    · split
+      · exact ⟨c', List.mem_append.2 (Or.inl h)⟩
+      · exact ⟨c', List.mem_cons.2 (Or.inr h)⟩
+
+/-- more fuel and a larger bound never lose a residual -/
+theorem repIter_mono (f : Str → Caps → Res) (g : Bool) :
+    ∀ (fuel fuel' mn : Nat) (mx mx' : Option Nat) (s : Str) (c : Caps) (v : Str),
+      fuel ≤ fuel' → mxLe mx mx' → Has (repIter f g fuel mn mx s c) v → Has (repIter f g fuel' mn mx' s c) v := by
+  intro fuel
+  induction fuel with
+  | zero =>
+    intro fuel' mn mx mx' s c v _ _ h
+    obtain ⟨c', h⟩ := h
+    simp only [repIter] at h
+    split at h
+    · rename_i h0; subst h0
+      simp at h
+      rw [h.1]
+      exact repIter_stop f g fuel' mx' s c
+    · simp at h
+  | succ fuel ih =>
+    intro fuel' mn mx mx' s c v hle hmx h
+    obtain ⟨fuel'', rfl⟩ : ∃ k, fuel' = k + 1 := ⟨fuel' - 1, by omega⟩
+    by_cases hm0 : mx = some 0
+    · -- bound exhausted on the left: only the stop result
+      obtain ⟨c', h⟩ := h
+      simp only [repIter, hm0, if_true] at h
+      split at h
+      · rename_i h0; subst h0
+        simp at h; rw [h.1]
+        exact repIter_stop f g _ mx' s c
+      · simp at h
+    · have hm0' := mxLe_ne_zero mx mx' hmx hm0
+      by_cases hmn : mn > 0
+      · obtain ⟨c', h⟩ := h
+        simp only [repIter, if_neg hm0, if_pos hmn] at h
+        rw [List.mem_flatMap] at h
+        obtain ⟨m, hmem, hr⟩ := h
+        obtain ⟨c'', hc''⟩ := ih fuel'' (mn - 1) _ _ m.1 m.2 v (by omega) (mxLe_pred mx mx' hmx) ⟨c', hr⟩
+        refine ⟨c'', ?_⟩
+        simp only [repIter, if_neg hm0', if_pos hmn]
+        exact List.mem_flatMap.2 ⟨m, hmem, hc''⟩
+      · have : mn = 0 := by omega
+        subst this
+        rw [repIter_opt f g fuel mx hm0] at h
+        rw [repIter_opt f g fuel'' mx' hm0']
+        rcases h with h | ⟨m, hmem, h | h⟩
+        · exact Or.inl h
+        · exact Or.inr ⟨m, hmem, Or.inl ⟨h.1, ih fuel'' 0 _ _ m.1 m.2 v (by omega) (mxLe_pred mx mx' hmx) h.2⟩⟩
+        · exact Or.inr ⟨m, hmem, Or.inr h⟩
+
+
+/-- `^` may only stand where the matcher is still at the start of the subject -/
+def BolOK : Re → Bool → Prop
+  | .bol, st => st = true
+  | .seq a b, st => BolOK a st ∧ BolOK b false
+  | .alt a b, st => BolOK a st ∧ BolOK b st
+  | .rep a _ _ _, _ => BolOK a false
+  | .group _ _ a, st => BolOK a st
+  | _, _ => True
+
+theorem suffix_length {u : UTables} {r : Re} {s t : Str} (h : Lang u r s t) : t.length ≤ s.length := by
+  obtain ⟨pre, rfl⟩ := lang_suffix h
+  simp
+
+theorem suffix_eq {u : UTables} {r : Re} {s t : Str} (h : Lang u r s t) (hl : ¬ t.length < s.length) : t = s := by
+  obtain ⟨pre, rfl⟩ := lang_suffix h
+  have : pre = [] := by
+    cases pre with
+    | nil => rfl
+    | cons x xs => simp at hl; omega
+  simp [this]
+
+/-- **completeness**: whatever the expression can consume, the backtracking matcher finds - every residual
+    of the language is among its results (the empty-iteration rule of sre loses nothing) -/
+theorem ms_complete (u : UTables) {r : Re} {s t : Str} (h : Lang u r s t) :
+    ∀ (st : Bool) (c : Caps), BolOK r st → Has (ms u r st s c) t := by
+  induction h with
+  | eps => intro st c _; exact ⟨c, by simp [ms]⟩
+  | cls hx => intro st c _; exact ⟨c, by simp [ms, hx]⟩
+  | any hx => intro st c _; exact ⟨c, by simp [ms, hx]⟩
+  | seq _ _ iha ihb =>
+    intro st c hb
+    obtain ⟨c1, h1⟩ := iha st c hb.1
+    obtain ⟨c2, h2⟩ := ihb false c1 hb.2
+    exact ⟨c2, by simp only [ms, List.mem_flatMap]; exact ⟨_, h1, h2⟩⟩
+  | altL _ ih =>
+    intro st c hb
+    obtain ⟨c1, h1⟩ := ih st c hb.1
+    exact ⟨c1, by simp only [ms, List.mem_append]; exact Or.inl h1⟩
+  | altR _ ih =>
+    intro st c hb
+    obtain ⟨c1, h1⟩ := ih st c hb.2
+    exact ⟨c1, by simp only [ms, List.mem_append]; exact Or.inr h1⟩
+  | repStop =>
+    intro st c _
+    simp only [ms]
+    exact repIter_stop _ _ _ _ _ _
+  | @repStep a mn mx g s t v hm ha hrest iha ihrest =>
+    intro st c hb
+    have hba : BolOK a false := hb
+    simp only [ms]
+    obtain ⟨c1, h1⟩ := iha false c hba
+    have hlen := suffix_length ha
+    by_cases hmn : mn > 0
+    · -- a mandatory iteration
+      have hr := ihrest false c1 hb
+      simp only [ms] at hr
+      have hr' := repIter_mono (ms u a false) g _ (mn + s.length) (mn - 1) (mx.map (· - 1)) (mx.map (· - 1)) t c1 v
+        (by omega) (mxLe_refl _) hr
+      obtain ⟨c2, h2⟩ := hr'
+      refine ⟨c2, ?_⟩
+      have e : mn + s.length + 1 = (mn + s.length) + 1 := rfl
+      rw [e]
+      simp only [repIter, if_neg hm, if_pos hmn]
+      exact List.mem_flatMap.2 ⟨(t, c1), h1, h2⟩
+    · have h0 : mn = 0 := by omega
+      subst h0
+      have e : 0 + s.length + 1 = s.length + 1 := by omega
+      rw [e, repIter_opt _ g _ mx hm]
+      by_cases hlt : t.length < s.length
+      · have hr := ihrest false c1 hb
+        simp only [ms] at hr
+        have hr' := repIter_mono (ms u a false) g _ s.length 0 (mx.map (· - 1)) (mx.map (· - 1)) t c1 v (by omega)
+          (mxLe_refl _) hr
+        exact Or.inr ⟨(t, c1), h1, Or.inl ⟨hlt, hr'⟩⟩
+      · -- an iteration that consumed nothing: the rest of the derivation starts from the same place
+        have hts := suffix_eq ha hlt
+        subst hts
+        have hr := ihrest false c hb
+        simp only [ms] at hr
+        have hr' := repIter_mono (ms u a false) g _ (t.length + 1) 0 (mx.map (· - 1)) mx t c v (by omega)
+          (mxLe_pred_self mx) hr
+        rw [repIter_opt _ g _ mx hm] at hr'
+        exact hr'
+  | group _ ih =>
+    intro st c hb
+    obtain ⟨c1, h1⟩ := ih st c hb
+    exact ⟨_, by simp only [ms, List.mem_map]; exact ⟨_, h1, rfl⟩⟩
+  | bol => intro st c hb; have : st = true := hb; subst this; exact ⟨c, by simp [ms]⟩
+  | eol hx => intro st c _; exact ⟨c, by simp [ms, hx]⟩
+  | eos hx => intro st c _; exact ⟨c, by simp [ms, hx]⟩
+
+/-- `pattern.match(s)` succeeds exactly when some prefix of the subject belongs to the language -/
+theorem pyMatch_iff (u : UTables) (r : Re) (hb : BolOK r true) (s : Str) :
+    (pyMatch u r s).isSome = true ↔ ∃ t, Lang u r s t := by
+  unfold pyMatch
+  constructor
+  · intro h
+    cases hm : ms u r true s [] with
+    | nil => rw [hm] at h; simp at h
+    | cons x xs => exact ⟨x.1, ms_sound u r true s [] x (by rw [hm]; simp)⟩
+  · rintro ⟨t, ht⟩
+    obtain ⟨c', hc'⟩ := ms_complete u ht true [] hb
+    cases hm : ms u r true s [] with
+    | nil => rw [hm] at hc'; simp at hc'
+    | cons x xs => simp
+
+
+/-- **a rule anchored with `\\Z` matches exactly the subjects that belong to its language as a whole** -/
+theorem anchored_match_iff (u : UTables) (a : Re) (hb : BolOK a true) (s : Str) :
+    (pyMatch u (.seq a .eos) s).isSome = true ↔ Lang u a s [] := by
+  rw [pyMatch_iff u (.seq a .eos) ⟨hb, trivial⟩ s]
+  constructor
+  · rintro ⟨t, ht⟩
+    exact (seq_eos_full ht).2
+  · intro h
+    exact ⟨[], .seq h (.eos rfl)⟩
+
+
+end Poor.Regex
